@@ -935,9 +935,16 @@ func check(prop, tier string, seed uint64) int {
 		cov["explanation"] = "exhaustive refers to the single-point mutation space only (every node of every canonical request x every mutation kind); double mutations and byte damage beyond it are sampled"
 	}
 	ev["coverage"] = cov
-	os.MkdirAll(verifDir+"/evidence", 0o755)
+	// the evidence directory describes checks of /repo itself: a run that the
+	// sensitivity tooling pointed at a scratch tree (VERIF_REPO) writes its
+	// record next to that tree's scratch copies instead
+	evDir := verifDir + "/evidence"
+	if os.Getenv("VERIF_REPO") != "" {
+		evDir = os.TempDir() + "/gldap-verif/evidence-of-scratch-trees"
+	}
+	os.MkdirAll(evDir, 0o755)
 	eb, _ := json.MarshalIndent(ev, "", " ")
-	if err := os.WriteFile(fmt.Sprintf("%s/evidence/%s.json", verifDir, prop), eb, 0o644); err != nil {
+	if err := os.WriteFile(fmt.Sprintf("%s/%s.json", evDir, prop), eb, 0o644); err != nil {
 		die(2, "%v", err)
 	}
 	fmt.Printf("verif: %s %s: %d runs, %d distinct non-trivial schedules, %d steps, %d violation classes (%d known), %.1fs\n",
